@@ -186,8 +186,25 @@ func (dec *ttlvReader) validate() error {
 	if len(dec.buf[8:]) < dec.paddedLen() {
 		return Errorf("TTLV value too short. Got %d bytes, expected %d", len(dec.buf[8:]), dec.paddedLen())
 	}
-	if ty := dec.Type(); ty > TypeInterval || ty == 0 {
+	ty := dec.Type()
+	if ty > TypeInterval || ty == 0 {
 		return Errorf("invalid TTLV type %s", ty)
+	}
+	// Fixed-width types must announce exactly their width, and a big integer at least one byte:
+	// the typed readers index into the value without further checks.
+	switch ty {
+	case TypeInteger, TypeEnumeration, TypeInterval:
+		if dec.len() != 4 {
+			return Errorf("invalid length %d for TTLV type %s", dec.len(), ty)
+		}
+	case TypeLongInteger, TypeBoolean, TypeDateTime:
+		if dec.len() != 8 {
+			return Errorf("invalid length %d for TTLV type %s", dec.len(), ty)
+		}
+	case TypeBigInteger:
+		if dec.len() == 0 {
+			return Errorf("invalid length 0 for TTLV type %s", ty)
+		}
 	}
 	// if th := (dec.Tag() >> 16) & 0xFF; th != 0x42 && th != 0x54 {
 	// 	return Errorf("invalid TTLV tag %X", dec.Tag())
@@ -256,6 +273,9 @@ func (dec *ttlvReader) LongInteger(tag int) (int64, error) {
 }
 
 func (dec *ttlvReader) BigInteger(tag int) (*big.Int, error) {
+	if err := dec.assertType(TypeBigInteger, tag); err != nil {
+		return nil, err
+	}
 	v := dec.value()
 	return bytesToBigInt(v), dec.Next()
 }
@@ -280,7 +300,13 @@ func (dec *ttlvReader) Struct(tag int, f func(reader) error) error {
 	if err := dec.assertType(TypeStructure, tag); err != nil {
 		return err
 	}
-	if err := f(&ttlvReader{buf: dec.value()}); err != nil {
+	// The nested reader only sees the declared extent of the structure, and its first item is
+	// validated like every following one.
+	sub, err := newTTLVReader(dec.value())
+	if err != nil {
+		return err
+	}
+	if err := f(sub); err != nil {
 		return err
 	}
 	return dec.Next()
